@@ -274,6 +274,11 @@ func runWorkers(u *unit, bin, prop, outDir string, seed uint64, workers int, bud
 				oc.crashed = append(oc.crashed, logPath)
 				return
 			}
+			if wr.Failure != nil && wr.Failure.Class == "harness" {
+				// the harness found itself inconsistent: never a pass
+				oc.crashed = append(oc.crashed, fmt.Sprintf("%s (harness error: %s)", logPath, wr.Failure.Msg))
+				return
+			}
 			if err != nil && wr.Failure == nil {
 				// exited non-zero without a recorded failure: crash after partial results
 				oc.crashed = append(oc.crashed, fmt.Sprintf("%s (exit: %v)", logPath, err))
